@@ -9,7 +9,8 @@ EXPLANATION = ("Every tree-entry comparator (Ord for tree::EntryRef, Ord for tre
                "prefix of min(len) bytes first (min, index, cmp, then_with) and break ties with get(common).or_else(is_tree.then_some(b'/')), using exactly one "
                "byte constant, b'/', and the mode's is_tree predicate (the editor: its is_tree argument for the probe side); the three callee "
                "multisets must be equal up to deref noise. TreeRef::bisect_entry must search with <EntryRef as Ord>::cmp against a probe whose mode is "
-               "Tree on is_dir and Blob otherwise. That this order is git's for all names is by construction of base_name_compare and not re-proved.")
+               "Tree on is_dir and Blob otherwise. The tree editor keeps trees sorted by inserting at a binary-search index: some decision in that index computation must derive from "
+               "the kind of the inserted entry (argument kind_and_id, captures resolved through nested closures), and it re-sorts after type changes. That this order is git's for all names is by construction of base_name_compare and not re-proved.")
 COMPARATORS = [(r"^<gix_object::tree::EntryRef<'_> as core::cmp::Ord>::cmp$", 2), (r"^<gix_object::tree::Entry as core::cmp::Ord>::cmp$", 2), (r"^gix_object::tree::editor::cmp_entry_with_name$", 1)]
 SHAPE = {"len": 2, "min": 1, "index": 2, "cmp": 2, "then_with": 1, "get": 2, "or_else": 2, "then_some": 2}
 
@@ -32,6 +33,7 @@ def shape(db, f):
 
 
 def run(db, chk):
+    editor_insertion_rule(db, chk)
     sigs = {}
     for pat, ntree in COMPARATORS:
         f = db.one(pat)
@@ -79,3 +81,52 @@ def run(db, chk):
                     kinds[nm] = rv[3]
         ok = kinds == {"true": "Tree", "false": "Blob"}
     chk.ob("lookup-probe-mode", "bisect_entry", ok, "probe mode must be Tree when is_dir else Blob", "%s:%d" % (b.file, b.line), key="lookup-probe-mode")
+
+
+def _capture_roots(db, top, fn, op, depth=0):
+    """roots of operand `op` of closure/function `fn`, with closure captures resolved through the enclosing functions up to `top`"""
+    fl = Flow(fn)
+    out = set()
+    for r in fl.roots(op, stop_named=False):
+        if r[0] == "arg" and r[1] == 1 and fn.name != top.name and fn.kind == "closure" and r[2] and r[2][0].startswith(".") and r[2][0][1:].isdigit() and depth < 6:
+            k = int(r[2][0][1:])
+            parent_name = fn.name.rsplit("::{closure#", 1)[0]
+            parent = next((g for g in [top] + db.closures_of(top) if g.name == parent_name), None)
+            if parent is None:
+                out.add(r)
+                continue
+            for bi, si, pl, rv, ln, mc in parent.assigns():
+                if rv[0] == "agg" and rv[1] == "closure" and fn.name.endswith(rv[2].split("::")[-1]) and (rv[2] == fn.name or fn.name.endswith("::" + rv[2]) or fn.name.endswith(rv[2])) and k < len(rv[4]):
+                    out |= _capture_roots(db, top, parent, rv[4][k], depth + 1)
+        else:
+            out.add(r)
+    return out
+
+
+def editor_insertion_rule(db, chk):
+    """the editor keeps trees sorted by inserting at an index found by binary search; which of the two candidate indices (as file / as directory)
+    is used must depend on the kind of the entry being inserted (argument kind_and_id), because the comparator orders `name` and `name/` differently."""
+    top = db.one(r"^gix_object::tree::editor::<impl gix_object::tree::Editor<'_>>::upsert_or_remove_at_pathbuf$")
+    fam = [g for g in db.closures_of(top) if g.kind == "closure"]
+    # the closures that take part in computing the search result: those containing / nested in a closure that calls binary_search_by
+    searchers = [g for g in fam if g.calls_to(r"::binary_search_by$")]
+    chk.floor("editor: closures performing the fallback binary search", len(searchers), 1)
+    sub = [g for g in fam if any(g.name == s_.name or g.name.startswith(s_.name + "::{closure#") for s_ in searchers)]
+    n_sw = 0
+    dep = False
+    for g in sub:
+        for bi in g.reachable_blocks():
+            t = g.term(bi)
+            if t[0] != "switch" or "p" not in t[1]:
+                continue
+            n_sw += 1
+            rs = _capture_roots(db, top, g, t[1])
+            if any(r[0] == "arg" and r[1] == 3 for r in rs):
+                dep = True
+    chk.floor("editor: decisions inside the insertion-index computation", n_sw, 1)
+    chk.ob("insertion-index-depends-on-kind", "Editor::upsert_or_remove_at_pathbuf", dep,
+           "no decision in the insertion-index computation depends on the kind of the new entry (kind_and_id); a new directory would be inserted where a file of that name sorts",
+           "%s:%d" % (top.file, top.line), key="insertion-index-kind|editor")
+    # the editor re-sorts after type changes and the sort uses the canonical comparator
+    sorts = [c for c in top.calls() if c.is_(r"::sort$|::sort_by$|::sort_unstable$")]
+    chk.floor("editor: re-sort after a type change", len(sorts), 1)
